@@ -26,9 +26,9 @@ class C05(Prop):
     level = "exploration"
     title = "Result caching is transparent"
     campaigns = {
-        "quick": [("main", 16000, 60), ("large", 12, 120), ("shared_subquery", 4000, 40), ("known:disjunction+for_all", 320, 30),
+        "quick": [("main", 16000, 60), ("large", 12, 120), ("shared_subquery", 4000, 40), ("shared_condition", 4000, 40), ("known:disjunction+for_all", 320, 30),
                   ("known:disjunction+flatten", 320, 30), ("known:predicate_with_repeated_variable", 320, 30), ("known:disjunction_over_different_variables", 320, 30), ("known:disjunction_of_multi_variable_conjunction", 320, 30), ("rules", 3000, 40), ("known:rule_tree_with_alternative_or_next", 320, 40), ("known:kwargs_form_variable_in_multi_variable_query", 320, 30), ("known:falsy_operand", 600, 30)],
-        "thorough": [("main", 250000, 1500), ("large", 160, 900), ("shared_subquery", 80000, 600), ("known:disjunction+for_all", 4000, 300),
+        "thorough": [("main", 250000, 1500), ("large", 160, 900), ("shared_subquery", 80000, 600), ("shared_condition", 80000, 600), ("known:disjunction+for_all", 4000, 300),
                      ("known:disjunction+flatten", 4000, 300), ("known:predicate_with_repeated_variable", 4000, 300), ("known:disjunction_over_different_variables", 20000, 300), ("known:disjunction_of_multi_variable_conjunction", 20000, 300), ("rules", 60000, 600), ("known:rule_tree_with_alternative_or_next", 6000, 400), ("known:kwargs_form_variable_in_multi_variable_query", 40000, 400), ("known:falsy_operand", 40000, 400)],
     }
     chunk = 40
@@ -91,7 +91,7 @@ class C05(Prop):
         if r < 0.35:
             # the shape the property names: conjunction of disjunctions over different variables
             force = {"n_vars": rng.choice([2, 3]), "depth": rng.choice([2, 3])}
-        if campaign == "shared_subquery":
+        if campaign in ("shared_subquery", "shared_condition"):
             force = {"n_vars": rng.choice([2, 2, 2, 3]), "n_queries": rng.choice([2, 2, 3])}
         cfg = G.gen_config(rng, tier, **force)
         cfg["kinds"] = ["list"]
@@ -123,6 +123,9 @@ class C05(Prop):
             # one sub-query OBJECT as a conjunct of several queries: its operator caches are filled under one
             # query's binding context and read under another's
             G.share_subquery(rng, cfg, world, pool)
+        if campaign == "shared_condition":
+            # one join-condition OBJECT used by several queries behind different filters
+            G.share_condition(rng, cfg, world, pool)
         ids = [q["id"] for q in pool["queries"]]
         ops = []
         for _ in range(rng.randint(1, 6 if tier == "quick" else 10)):
